@@ -277,7 +277,7 @@ PROPS = {
         stages=[dict(test="TestC18", pkg="c18", quick=(16, 14), thorough=(16, 1200), timeout=dict(quick=900, thorough=3400))],
         rule="case = genesis current group or none, small Min/MaxTransitionDuration, CreationPeriod 4-9, SigningPeriod 1-3, MaxSigningAttempt 1-3 and "
              "late-bound ops: gov MsgTransitionGroup / MsgForceTransitionGroup with exec times at min / max / just outside the window / not after block "
-             "time, a second proposal while one is pending, forced transitions naming a group that is not ACTIVE (left-over DKG group of a dropped transition in ROUND_1/2/3, stalled, fallen, expired, non-existent), DKG steps of the incoming group (honest, member stops, false complaint), hand-over signing by all/some/none of the current group, millisecond time axis (exec times with sub-second parts, blocks landing in the same second just before / exactly at / just after ExecTime), duplicate-member proposals, block ends with dt crossing ExecTime before/at/after each milestone, member activation, "
+             "time, a second proposal while one is pending, forced transitions naming a group that is not ACTIVE (left-over DKG group of a dropped transition in ROUND_1/2/3, stalled, fallen, expired, non-existent), DKG steps of the incoming group (honest, member stops, false complaint), hand-over signing by all/some/none of the current group, millisecond time axis (exec times with sub-second parts, blocks landing in the same second just before / exactly at / just after ExecTime), duplicate-member proposals, authority-only bandtss messages (MsgForceTransitionGroup, MsgTransitionGroup, MsgUpdateParams) sent in a tx by ordinary accounts naming themselves (or the governance address) as authority at moments when a forced transition would otherwise be acceptable, block ends with dt crossing ExecTime before/at/after each milestone, member activation, "
              "user signing requests at every stage; non-trivial = a transition reached WAITING_SIGN or WAITING_EXECUTION and >=1 milestone lies within "
              "one block of the first block at/after ExecTime; distinct = hash of case JSON",
         explanation="reference state machine written from the statement: CurrentGroup changes only in a block with time >= ExecTime whose transition was "
